@@ -24,6 +24,13 @@ type commitInfo struct {
 	parents            []string // subjects of the parents, in order
 }
 
+// dupSubject: the refs reach two commits carrying the same message.  The harness never builds such a
+// history, so before a rewrite it is a harness fault; after a rewrite it means that original and
+// rewritten copies of one commit are both reachable, i.e. the graph shape changed.
+type dupSubject string
+
+func (d dupSubject) Error() string { return fmt.Sprintf("two commits with subject %q", string(d)) }
+
 func readHistory(w *World) (map[string]*commitInfo, error) {
 	r := w.Env.Git(w.Clone, "log", "--all", "--format=%H%x01%s%x01%an|%ae|%at|%cn|%ce|%ct%x01%P")
 	if !r.OK() {
@@ -53,7 +60,7 @@ func readHistory(w *World) (map[string]*commitInfo, error) {
 		}
 		ci.parents = ps
 		if _, dup := out[ci.subject]; dup {
-			return nil, fmt.Errorf("two commits with subject %q", ci.subject)
+			return nil, dupSubject(ci.subject)
 		}
 		out[ci.subject] = ci
 	}
@@ -198,6 +205,9 @@ func replayMigrate(c *core.Ctx, lfsBin string, b *behaviour, idx int) (*core.Vio
 				return mk("migrate-succeeds", "the command failed on a well-formed history"), nil
 			}
 			after, err := readHistory(w)
+			if d, isDup := err.(dupSubject); isDup {
+				return mk("same-commit-graph", fmt.Sprintf("after the rewrite the refs reach two commits with the message %q: an original commit is still reachable next to its rewritten copy", string(d))), nil
+			}
 			if err != nil {
 				return nil, err
 			}
@@ -319,16 +329,32 @@ func init() {
 			}
 			total++
 			feat := map[string]bool{}
+			lastAge := map[string]int{} // age of each branch's tip as the world dates it
 			for _, s := range st {
 				actionsSeen[s.str("a")]++
 				switch s.str("a") {
 				case "merge", "tag", "chmod", "relink":
 					feat[s.str("a")] = true
+					if s.str("a") != "tag" {
+						lastAge[s.str("b")] = 0
+					}
 				case "commit":
 					feat["b:"+ReprName(s.str("blob"))] = true
 					if s.str("b") != "main" {
 						feat["branch"] = true
 					}
+					parent, ok := lastAge[s.str("b")]
+					if !ok {
+						parent = lastAge["main"]
+					}
+					if age := s.num("age"); age > parent {
+						// a commit dated before its parent (clock skew): date order is not topological order
+						feat["skew"] = true
+						if s.str("b") != "main" {
+							feat["skew-branch"] = true
+						}
+					}
+					lastAge[s.str("b")] = s.num("age")
 				}
 			}
 			fs := []string{}
@@ -372,11 +398,11 @@ func init() {
 		c.Set("traces_validated_against_impl", len(bs))
 		c.Set("evaluations", len(bs))
 		c.Set("distinct_nontrivial", len(bs))
-		c.Set("rule", "behaviours = per-edge output of spec/Migrate.tla for every edge ending in an import or an export (after an import); sampled round-robin over classes (command x selection size x features merge / tag / chmod / relink / blob kinds / branch)")
+		c.Set("rule", "behaviours = per-edge output of spec/Migrate.tla for every edge ending in an import or an export (after an import); sampled round-robin over classes (command x selection size x features merge / tag / chmod / relink / blob kinds / branch / a commit dated before its parent)")
 		for i := 0; i < len(bs); i += len(bs)/4 + 1 {
 			c.Sample(json.RawMessage(bs[i].raw))
 		}
-		c.Assume("--everything with --include of one path or *.bin; executable bit only through mode-only commits; symbolic links only as type changes of ordinary files (same blob); nested .gitattributes, --above, --fixup, --no-rewrite, --include-ref/--exclude-ref are not yet modelled; .gitattributes written by migrate is treated as managed metadata and not compared")
+		c.Assume("commit dates need not follow ancestry (Skew); --everything with --include of one path or *.bin; executable bit only through mode-only commits; symbolic links only as type changes of ordinary files (same blob); nested .gitattributes, --above, --fixup, --no-rewrite, --include-ref/--exclude-ref are not yet modelled; .gitattributes written by migrate is treated as managed metadata and not compared")
 	}
 }
 
